@@ -157,4 +157,10 @@ VARIANTS = [
     dict(name="c09-init-subclass-signed-max-off-by-one", property="C09", rule="C09-W", file=V,
          edits=[dict(file=V, old='    _max: ClassVar[int] = 2**8 - 1\n\n    @abstractmethod\n    def __init__(self, *args): ...\n', new='    _max: ClassVar[int] = 2**8 - 1\n\n    def __init_subclass__(cls, size=None, unsigned=False, **kwargs) -> None:\n        super().__init_subclass__(**kwargs)\n        if size is None:\n            return\n        bits = 8 * size\n        cls._size = size\n        cls._unsigned = unsigned\n        if unsigned:\n            cls._min = 0\n            cls._max = 2**bits - 1\n        else:\n            cls._min = -(2 ** (bits - 1))\n            cls._max = 2 ** (bits - 1)\n\n    @abstractmethod\n    def __init__(self, *args): ...\n'),
                 dict(file=V, old='class Int8(IntValidatorBase[_P, ctypes.c_int8], Generic[_P]):\n    """Validator for 8-bit integers"""\n\n    _size: ClassVar[int] = 1\n    _unsigned: ClassVar[bool] = False\n    _min: ClassVar[int] = -(2**7)\n    _max: ClassVar[int] = 2**7 - 1\n\n', new='class Int8(IntValidatorBase[_P, ctypes.c_int8], Generic[_P], size=1, unsigned=False):\n    """Validator for 8-bit integers"""\n\n')]),
+
+    # order-statistic refusal tests are compared with the bounds on every ordering
+    dict(name="c10-byte-array-refuses-the-upper-bound", property="C10", rule="C10-D", file=V,
+         old="        if (max(value) > self._max) or (min(value) < self._min):", new="        if (max(value) >= self._max) or (min(value) < self._min):"),
+    dict(name="c10-silent-extremes-as-chained-comparison", property="C10", expect="silent", file=V,
+         old="        if (max(value) > self._max) or (min(value) < self._min):", new="        lo, hi = min(value), max(value)\n        if not self._min <= lo <= hi <= self._max:"),
 ]
